@@ -776,6 +776,8 @@ class Interp:
             return self.bm.super_attr(self, obj, name)
         if isinstance(obj, BuiltinRef) and obj.name == 'str':
             return BuiltinRef('str.' + name)
+        if isinstance(obj, BuiltinRef) and obj.name == 'dict' and name == 'fromkeys':
+            return BuiltinRef('dict.fromkeys')
         if is_str(obj) or isinstance(obj, (PList, PDict, tuple, PIter)) or is_int(obj) or is_bool(obj) \
                 or isinstance(obj, (self.bm.SymSeq, self.bm.UStr)) or type(obj).__name__ == 'MatchObj':
             return BuiltinMethod(obj, name)
